@@ -148,6 +148,14 @@ func (e *errRender) value(s *spec.Spec) {
 				e.delim(',')
 				e.ws()
 			}
+			if e.r.Chance(1, 10) {
+				// empty elements (commas with nothing but blanks between them): the parser steps over them, their line
+				// breaks are line breaks of the input like any other
+				for k := 1 + e.r.Intn(3); k > 0; k-- {
+					e.b.WriteByte(',')
+					e.ws()
+				}
+			}
 			e.value(v)
 			e.ws()
 		}
